@@ -415,7 +415,8 @@ namespace awkward {
     }
 
     if (!begun_  &&
-        ((check  &&  name_ == name)  ||  (!check  &&  nameptr_ == name))) {
+        ((check  &&  nameptr_ != nullptr  &&  name_ == name)  ||
+         (!check  &&  nameptr_ == name))) {
       begun_ = true;
       nextindex_ = -1;
       nexttotry_ = 0;
